@@ -484,19 +484,24 @@ func genC07() {
 		def("`ComputeUnit.VRegCounts`", "cuVRegCounts : List Nat", c07IntList(c07Return(tcu, tcu.fn("ComputeUnit.VRegCounts")), "VRegCounts"))
 		def("`ComputeUnit.SRegCount`", "cuSRegCount : Nat", c07Lean(c07Return(tcu, tcu.fn("ComputeUnit.SRegCount")), nil, "SRegCount"))
 		def("`ComputeUnit.LDSBytes`", "cuLDSBytes : Nat", c07Lean(c07Return(tcu, tcu.fn("ComputeUnit.LDSBytes")), nil, "LDSBytes"))
-		// handleScalarDataLoadReturn: RegCount: len(rsp.Data) / 4
-		n := 0
-		ast.Inspect(tcu.fn("ComputeUnit.handleScalarDataLoadReturn").Body, func(m ast.Node) bool {
-			kv, ok := m.(*ast.KeyValueExpr)
-			if ok && c05Text(kv.Key) == "RegCount" {
-				n++
-				def(fmt.Sprintf("`handleScalarDataLoadReturn`: `RegCount: %s`", c05Text(kv.Value)), "smemRegCount (len : Nat) : Nat", c07Lean(kv.Value, map[string]string{"len(rsp.Data)": "len"}, "handleScalarDataLoadReturn"))
-			}
-			return true
-		})
-		if n != 1 {
-			c07Fail("handleScalarDataLoadReturn: expected exactly one `RegCount: …`, found %d", n)
+		// handleScalarDataLoadReturn: wf.RegAccessor.WriteReg(info.DstSGPR, len(rsp.Data)/4, 0, wf.SRegOffset, rsp.Data)
+		wr := c07Calls(tcu.fn("ComputeUnit.handleScalarDataLoadReturn"), "wf.RegAccessor.WriteReg")
+		if len(wr) != 1 || len(wr[0].Args) != 5 {
+			c07Fail("handleScalarDataLoadReturn: expected exactly one wf.RegAccessor.WriteReg(reg, regCount, laneID, waveOffset, data), found %d", len(wr))
 		}
+		if len(c07Calls(tcu.fn("ComputeUnit.handleScalarDataLoadReturn"), "cu.SRegFile.Write")) != 0 {
+			c07Fail("handleScalarDataLoadReturn writes the scalar register file directly")
+		}
+		for i, want := range map[int]string{0: "info.DstSGPR", 3: "wf.SRegOffset", 4: "rsp.Data"} {
+			if c05Text(wr[0].Args[i]) != want {
+				c07Fail("handleScalarDataLoadReturn: argument %d of WriteReg is `%s`, expected `%s`", i, c05Text(wr[0].Args[i]), want)
+			}
+		}
+		if c05Text(tcu.defOf(tcu.fn("ComputeUnit.handleScalarDataLoadReturn"), "wf")) != "info.Wavefront" {
+			c07Fail("handleScalarDataLoadReturn: wf := %s", c05Text(tcu.defOf(tcu.fn("ComputeUnit.handleScalarDataLoadReturn"), "wf")))
+		}
+		def(fmt.Sprintf("`handleScalarDataLoadReturn`: `%s`: the register count", c05Text(wr[0])), "smemRegCount (len : Nat) : Nat", c07Lean(wr[0].Args[1], map[string]string{"len(rsp.Data)": "len"}, "handleScalarDataLoadReturn"))
+		def(fmt.Sprintf("`handleScalarDataLoadReturn`: `%s`: the lane", c05Text(wr[0])), "smemLane : Nat", c07Lean(wr[0].Args[2], nil, "handleScalarDataLoadReturn"))
 	}
 
 	// ---- e. amd/timing/cp/internal/resource
@@ -771,20 +776,45 @@ func genC07() {
 			}
 			n++
 			call, ok := kv.Value.(*ast.CallExpr)
-			if !ok || c05Text(call.Fun) != "insts.SReg" || len(call.Args) != 1 {
-				c07Fail("executeSMEMLoad: DstSGPR `%s` is not insts.SReg(…)", c05Text(kv.Value))
+			if !ok || c05Text(call.Fun) != "smemDstReg" || len(call.Args) != 2 || c05Text(call.Args[0]) != "inst.Data.Register" {
+				c07Fail("executeSMEMLoad: DstSGPR `%s` is not smemDstReg(inst.Data.Register, …)", c05Text(kv.Value))
 			}
-			def(fmt.Sprintf("`executeSMEMLoad`: `DstSGPR: %s` (`regIndex` may be −1: an `Int`); `bytes` = `curr-start`", c05Text(kv.Value)),
-				"smemDstIndex (regIndex : Int) (bytes : Nat) : Int",
-				strings.Replace(c07Lean(call.Args[0], map[string]string{"regIndex": "regIndex", "curr - start": "bytes", "(curr - start)": "bytes"}, "executeSMEMLoad"), "(bytes / ", "Int.ofNat (bytes / ", 1))
+			def(fmt.Sprintf("`executeSMEMLoad`: `DstSGPR: %s`: the dword offset; `bytes` = `curr-start`", c05Text(kv.Value)),
+				"smemDstOffset (bytes : Nat) : Nat",
+				c07Lean(call.Args[1], map[string]string{"curr - start": "bytes", "(curr - start)": "bytes"}, "executeSMEMLoad"))
 			return true
 		})
 		if n != 1 {
 			c07Fail("executeSMEMLoad: expected exactly one `DstSGPR: …`, found %d", n)
 		}
-		if c05Text(tsu.defOf(fd, "regIndex")) != "inst.Data.Register.RegIndex()" {
-			c07Fail("executeSMEMLoad: regIndex := %s", c05Text(tsu.defOf(fd, "regIndex")))
+		// smemDstReg: if data.IsSReg() { return insts.SReg(data.RegIndex() + dwordOffset) }; return insts.Regs[data.RegType+insts.RegType(dwordOffset)]
+		sd := tsu.fn("smemDstReg")
+		if len(sd.Body.List) != 2 {
+			c07Fail("smemDstReg: expected `if data.IsSReg() { return … }; return …`, found %d statements", len(sd.Body.List))
 		}
+		ifs, ok1 := sd.Body.List[0].(*ast.IfStmt)
+		ret2, ok2 := sd.Body.List[1].(*ast.ReturnStmt)
+		if !ok1 || !ok2 || ifs.Else != nil || ifs.Init != nil || c05Text(ifs.Cond) != "data.IsSReg()" || len(ifs.Body.List) != 1 || len(ret2.Results) != 1 {
+			c07Fail("smemDstReg: unexpected shape")
+		}
+		ret1, ok := ifs.Body.List[0].(*ast.ReturnStmt)
+		if !ok || len(ret1.Results) != 1 {
+			c07Fail("smemDstReg: the SGPR branch does not return")
+		}
+		c1, ok := ret1.Results[0].(*ast.CallExpr)
+		if !ok || c05Text(c1.Fun) != "insts.SReg" || len(c1.Args) != 1 {
+			c07Fail("smemDstReg: the SGPR branch returns `%s`, not insts.SReg(…)", c05Text(ret1.Results[0]))
+		}
+		def(fmt.Sprintf("`smemDstReg`, `data.IsSReg()`: `return %s`: the index", c05Text(ret1.Results[0])),
+			"smemDstSgprIndex (regIndex dwordOffset : Nat) : Nat",
+			c07Lean(c1.Args[0], map[string]string{"data.RegIndex()": "regIndex", "dwordOffset": "dwordOffset"}, "smemDstReg"))
+		ix, ok := ret2.Results[0].(*ast.IndexExpr)
+		if !ok || c05Text(ix.X) != "insts.Regs" {
+			c07Fail("smemDstReg: the other branch returns `%s`, not insts.Regs[…]", c05Text(ret2.Results[0]))
+		}
+		def(fmt.Sprintf("`smemDstReg`, otherwise: `return %s`: the register number", c05Text(ret2.Results[0])),
+			"smemDstOther (regType dwordOffset : Nat) : Nat",
+			c07Lean(ix.Index, map[string]string{"data.RegType": "regType", "insts.RegType(dwordOffset)": "dwordOffset"}, "smemDstReg"))
 		// RegIndex: the final return
 		ri := ireg.fn("Reg.RegIndex")
 		last, ok := ri.Body.List[len(ri.Body.List)-1].(*ast.ReturnStmt)
